@@ -352,7 +352,16 @@ func VerifClosedMain(args []string) int {
 		var arg, rep int
 		fmt.Sscanf(t[7], "%d", &arg)
 		fmt.Sscanf(t[8], "%d", &rep)
-		return vcCell(t[1], atob(t[2]), atob(t[3]), atob(t[4]), atob(t[5]), t[6], arg, rep)
+		// watchdog: a cell that never returns (e.g. a Close spinning on a token that was never given back)
+		// is reported as stuck and abandoned; the harness goes on with the next cell
+		ch := make(chan string, 1)
+		go func() { ch <- vcCell(t[1], atob(t[2]), atob(t[3]), atob(t[4]), atob(t[5]), t[6], arg, rep) }()
+		select {
+		case r := <-ch:
+			return r
+		case <-time.After(8 * time.Second):
+			return "stuck"
+		}
 	}
 	if *replay != "" {
 		f, err := os.Open(*replay)
